@@ -3,6 +3,7 @@
 package checks
 
 import (
+	"bytes"
 	"crypto/sha256"
 	"encoding/hex"
 	"encoding/json"
@@ -317,6 +318,7 @@ type Unit struct {
 	Pkg    string
 	Text   string
 	Gen    batch.GenResult
+	Skip   bool   // not a meaningful unit (see Fail)
 	OK     bool   // generated and compiled
 	Fail   string // why not
 	b      *batch.Batch
@@ -363,10 +365,21 @@ func (c *Ctx) buildUnitsBase(gs []*gast.Grammar, flagSets [][]string, race bool,
 	// generate
 	parallel(len(bt.Units), 16, func(i int) {
 		u := bt.Units[i]
-		u.Text = gast.Print(u.G, gast.PrintOpts{Pkg: u.Pkg})
+		po := gast.PrintOpts{Pkg: u.Pkg}
+		for k, f := range u.Flags {
+			if f == "-receiver-name" && k+1 < len(u.Flags) {
+				po.Receiver = u.Flags[k+1]
+			}
+		}
+		u.Text = gast.Print(u.G, po)
 		u.Gen = c.W.Gen(u.Text, u.Flags...)
 		if u.Gen.Exit != 0 {
 			u.Fail = fmt.Sprintf("pigeon exit %d: %s", u.Gen.Exit, firstLine(u.Gen.Stderr))
+		} else if u.G.UsesState && u.HasFlag("-optimize-parser") && !bytes.Contains(u.Gen.Stdout, []byte("statePool")) {
+			// -optimize-grammar removed every rule with a state block, so -optimize-parser dropped the
+			// state store that the harness' blocks still read: documented behaviour, not a finding
+			u.Skip = true
+			u.Fail = "skipped: all state blocks were optimised away while code blocks still read c.state"
 		}
 	})
 	// batches
@@ -526,3 +539,24 @@ func parallel(n, workers int, f func(i int)) {
 }
 
 var runOptsDefault = batch.RunOpts{}
+
+// Vet runs go vet over every batch and returns the output lines per package.
+func (bt *Built) Vet() map[string][]string {
+	out := map[string][]string{}
+	var mu sync.Mutex
+	parallel(len(bt.batches), 4, func(i int) {
+		b := bt.batches[i]
+		if b == nil {
+			return
+		}
+		o, _ := b.GoCmd("vet", "./...")
+		mu.Lock()
+		for _, l := range strings.Split(o, "\n") {
+			if m := pkgRe.FindString(l); m != "" && !strings.HasPrefix(l, "#") {
+				out[m] = append(out[m], strings.TrimSpace(l))
+			}
+		}
+		mu.Unlock()
+	})
+	return out
+}
